@@ -337,29 +337,71 @@ def residue_history(rnd, first_id):
 
 
 def union_eq_history(rnd, first_id):
-    """Equality and hash of unions with structure members, and of structures holding them (parsed values only: assignments
-    through unions are C11's)."""
+    """Unions with structure members, and structures holding them: construction (default, one value - positional behind Nones or
+    keyword), parsing, dumping, truthiness, equality and hash, with the members declared in a random order (the largest is
+    not always the first).  Assignments through unions are C11's."""
     u8 = A.t_int("uint8")
     p = A.t_struct("up", [A.field("x", u8), A.field("y", u8)])
-    inner = A.t_struct("uu", [A.field("s", p), A.field("w", A.t_int("uint16")), A.field("b", u8)], union=True)
+    members = [A.field("s", p), A.field("w", A.t_int("uint16")), A.field("b", u8)]
+    if rnd.random() < 0.6:
+        members.append(A.field("q", A.t_int("uint32")))
+    rnd.shuffle(members)
+    inner = A.t_struct("uu", members, union=True)
     outer = A.t_struct("uw", [A.field("t", u8), A.field("u", inner), A.field("arr", A.t_arr(inner, A.L_fixed(2)))])
-    t = rnd.choice([inner, outer])
+    t = rnd.choice([inner, inner, outer])
     mode = {"endian": rnd.choice("<>"), "align": False, "ptr": 8}
     r = A.Renderer()
     r.ensure(outer)
     cs = codec.load(r.text({}), mode, rnd.random() < 0.5)
     T = getattr(cs, t["name"])
-    pool = [bytes(rnd.choice([0, 1, 2]) for _ in range(8)) for _ in range(2)] + [bytes(8)]
+    usize = 4 if len(members) == 4 else 2
+    size = usize if t is inner else 1 + 3 * usize
+    pool = [bytes(rnd.choice([0, 1, 2]) for _ in range(size)) for _ in range(2)] + [bytes(size)]
     events, rid, live, next_iid = [], first_id, {}, 1
-    for _ in range(7):
+    for _ in range(9):
         base = {"cs": 1, "type": t, "mode": mode, "consts": {"_": 0}}
-        if len(live) < 2 or rnd.random() < 0.4:
-            data = rnd.choice(pool)
-            o = T.read(io.BytesIO(data))
-            live[next_iid] = (o, t)
-            ev = dict(base, ev="Parse", iid=next_iid, input=list(data), obs={"status": "ok", "v": A.project(o, t)})
-            next_iid += 1
-        elif rnd.random() < 0.3:
+        r_ = rnd.random()
+        if len(live) < 2 or r_ < 0.35:
+            if rnd.random() < 0.5:
+                data = rnd.choice(pool)
+                o = T.read(io.BytesIO(data))
+                live[next_iid] = (o, t)
+                ev = dict(base, ev="Parse", iid=next_iid, input=list(data), obs={"status": "ok", "v": A.project(o, t)})
+            else:
+                args, kwargs = [], []
+                if t is inner and rnd.random() < 0.7:
+                    i = rnd.randrange(len(members))
+                    small = lambda: A.pint(rnd.choice([0, 0, 1, 2]))      # noqa: E731 - small values: equal pairs must be frequent
+                    if members[i]["type"]["k"] == "struct":
+                        v = {"k": "struct", "cls": "up", "names": ["x", "y"], "vals": [small(), small()]}
+                    else:
+                        v = small()
+                    if rnd.random() < 0.5:
+                        args = [codec.NONE_V] * i + [v]
+                    else:
+                        kwargs = [[i + 1, v]]
+                        if i > 0 and rnd.random() < 0.3:
+                            kwargs.insert(0, [1, codec.NONE_V])
+                # real members by NAME: the order of __fields__ is itself something a change may break
+                real_args = [None if a == codec.NONE_V else A.unproject(a, f["type"], T.fields[f["name"]].type) for a, f in zip(args, t["fields"])]
+                real_kw = {t["fields"][i - 1]["name"]: (None if v == codec.NONE_V else A.unproject(v, t["fields"][i - 1]["type"], T.fields[t["fields"][i - 1]["name"]].type))
+                           for i, v in kwargs}
+                try:
+                    o = T(*real_args, **real_kw)
+                    live[next_iid] = (o, t)
+                    ev = dict(base, ev="Construct", iid=next_iid, args=args, kwargs=kwargs, obs={"status": "ok", "v": A.project(o, t)})
+                except Exception as e:  # noqa: BLE001
+                    ev = dict(base, ev="Construct", iid=0, args=args, kwargs=kwargs, obs={"status": "error", "v": codec.NONE_V, "exc": f"{type(e).__name__}: {e}"[:150]})
+            if ev["obs"]["status"] == "ok":
+                next_iid += 1
+        elif r_ < 0.5:
+            i = rnd.choice(list(live))
+            try:
+                ob = {"status": "ok", "b": list(live[i][0].dumps())}
+            except Exception as e:  # noqa: BLE001
+                ob = {"status": "error", "b": [], "exc": f"{type(e).__name__}: {e}"[:150]}
+            ev = dict(base, ev="Dump", iid=i, obs=ob)
+        elif r_ < 0.62:
             i = rnd.choice(list(live))
             ev = dict(base, ev="Bool", iid=i, obs={"result": bool(live[i][0])})
         else:
@@ -409,6 +451,8 @@ class SessionCheck:
             evs, rid = residue_history(rnd, rid)
             events.append({"ev": "New", "endian": "<"})
             events += evs
+        # the other direction: TLC chooses the histories (Gen_Session), the real objects follow
+        replay_tlc_sessions(rep, rnd, 100 if thorough else 24, 600 if thorough else 60, 10 if thorough else 6)
         judged = [e for e in events if "id" in e]
         rep.evaluations += len(judged)
         verdicts, _ = validate_histories("Trace_Session", events)
@@ -432,3 +476,179 @@ class SessionCheck:
     def replay(self, path):
         print("replay: re-run ./check", self.prop, "with the seed in the file name")
         return 0
+
+
+# ------------------------------------------------------------------------------------------ E3: TLC behaviours replayed on the code
+def gen_session_cases(rnd, k):
+    """Universe for Gen_Session: one random structure per case with candidate constructor argument lists and candidate assignments;
+    TLC chooses which of them happen, on which instance and in which order."""
+    cases = []
+    tries = 0
+    while len(cases) < k and tries < 50 * k:
+        tries += 1
+        mode = codec.gen_mode(rnd)
+        g = A.Gen(rnd, mode, CFG)
+        t = g.struct()
+        if A.has_dup_names(t):
+            continue
+        try:
+            samples = [A.gen_value(rnd, t, mode, g.consts) for _ in range(4)]
+        except Exception:  # noqa: BLE001
+            continue
+        if any(A.has_nan(s) for s in samples):
+            continue
+        nf = len(t["fields"])
+        ctors = [{"args": [], "kwargs": []}]
+        for s in samples[:2]:
+            npos = rnd.randrange(1, nf + 1)
+            args = s["vals"][:npos]
+            if npos == 1 and args[0].get("k") in ("bytes", "str"):
+                continue
+            if npos > 1 and rnd.random() < 0.7:
+                # None where the default is a mutable object (array, nested structure) is the interesting slot
+                args = [codec.NONE_V if (i < npos - 1 and rnd.random() < (0.8 if a.get("k") in ("list", "struct") else 0.3)) else a
+                        for i, a in enumerate(args)]
+            ctors.append({"args": args, "kwargs": []})
+        for s in samples[2:]:
+            idx = rnd.sample(range(nf), rnd.randrange(1, nf + 1))
+            ctors.append({"args": [], "kwargs": [[i + 1, codec.NONE_V if rnd.random() < 0.15 else s["vals"][i]] for i in idx]})
+        assigns = []
+        for _ in range(40):
+            if len(assigns) >= 8:
+                break
+            cur = rnd.choice(samples)
+            path, node, bits = pick_path(rnd, t, cur)
+            for _retry in range(6 if len(assigns) % 2 == 0 else 0):      # every other candidate changes something below the top level
+                if len(path) >= 2:
+                    break
+                path, node, bits = pick_path(rnd, t, cur)
+            if not path:
+                continue
+            try:
+                if bits:
+                    v = A.pint(rnd.choice([0, 1, (1 << bits) - 1]))
+                    if node["k"] == "enum":
+                        v = {"k": "enum", "cls": node["name"], "v": v}
+                else:
+                    v = A.gen_value(rnd, node, mode, g.consts)
+            except Exception:  # noqa: BLE001
+                continue
+            if A.has_nan(v):
+                continue
+            assigns.append({"path": path, "value": v, "node": node, "bits": bits})
+        if not assigns:
+            continue
+        cases.append({"type": t, "mode": mode, "consts": g.consts or {"_": 0}, "ctors": ctors, "assigns": assigns,
+                      "defs": _defs(t, g.consts)})
+    return cases
+
+
+def _defs(t, consts):
+    r = A.Renderer()
+    r.ensure(t)
+    return r.text(consts)
+
+
+def replay_tlc_sessions(rep, rnd, ncases, num, depth):
+    """Let TLC choose histories (Gen_Session, -simulate) and perform them on real objects, comparing every live instance's value,
+    dumped bytes, truthiness and pairwise equality with the specification after every step."""
+    import json
+    import os
+
+    from harness import tlc
+    from harness.checks_codec import write_universe
+
+    cases = gen_session_cases(rnd, ncases)
+    path = write_universe(cases)
+    cfg = os.path.join(tlc.VERIF, "gen", f"Gen_Session_{depth}.cfg")
+    try:
+        res = tlc.run(tlc.VERIF + "/gen/Gen_Session.tla", cfg, env={"UNIVERSE_FILE": path}, workers=1,
+                      extra=["-simulate", f"num={num}", "-depth", str(depth + 2), "-seed", str(rnd.randrange(1 << 30))], timeout=1800)
+    finally:
+        os.unlink(path)
+    if res.violated:
+        raise MachineryError(f"Gen_Session: the specification violates its own frame condition: {res.violated}")
+    behaviours = []
+    for line in res.out.splitlines():
+        if line.startswith('"{') and '\\"beh\\":\\"BEH\\"' in line:
+            behaviours.append(json.loads(json.loads(line)))
+    if not behaviours:
+        raise MachineryError(f"Gen_Session produced no behaviours: {res.error or res.out[-800:]}")
+    nsteps = 0
+    acts = {"construct": 0, "assign": 0}
+    for beh in behaviours:
+        c = cases[beh["case"] - 1]
+        t, mode = c["type"], c["mode"]
+        cs = codec.load(c["defs"], mode, False)
+        T = getattr(cs, t["name"])
+        live = []
+
+        def bad(step, what):
+            rep.violation(f"TLC-chosen history, step {step}: {what} :: {c['defs'][:300]} mode={mode}",
+                          {"kind": "session-replay", "case": c, "behaviour": beh, "step": step})
+
+        for k, st in enumerate(beh["log"], 1):
+            try:
+                if st["act"] == "construct":
+                    ct = c["ctors"][st["c"] - 1]
+                    real_args = [None if a == codec.NONE_V else
+                                 A.unpint(a) if (f["bits"] and f["type"]["k"] != "enum") else A.unproject(a, f["type"], rf.type)
+                                 for a, f, rf in zip(ct["args"], t["fields"], T.__fields__)]
+                    real_kw = {}
+                    for i, v in ct["kwargs"]:
+                        f, rf = t["fields"][i - 1], T.__fields__[i - 1]
+                        real_kw[rf._name] = None if v == codec.NONE_V else A.unpint(v) if (f["bits"] and f["type"]["k"] != "enum") \
+                            else A.unproject(v, f["type"], rf.type)
+                    live.append(T(*real_args, **real_kw))
+                else:
+                    asg = c["assigns"][st["c"] - 1]
+                    real_set(live[st["i"] - 1], T, asg["path"], t, asg["value"], asg["node"], asg["bits"])
+            except Exception as e:  # noqa: BLE001
+                bad(k, f"{st['act']} #{st['c']} on instance {st['i']} raised {type(e).__name__}: {e}")
+                break
+            acts[st["act"]] += 1
+            nsteps += 1
+            obs = st["obs"]
+            got = [A.project(o, t) for o in live]
+            if got != obs["vals"]:
+                j = next(j for j in range(len(got)) if got[j] != obs["vals"][j])
+                bad(k, f"after {st['act']} #{st['c']} on instance {st['i']}, instance {j + 1} is {str(got[j])[:300]} but the specification says {str(obs['vals'][j])[:300]}")
+                break
+            stop = False
+            for j, o in enumerate(live):
+                if obs["dumps"][j] != [-1]:
+                    try:
+                        d = list(o.dumps())
+                    except Exception as e:  # noqa: BLE001
+                        d = f"{type(e).__name__}: {e}"
+                    if d != obs["dumps"][j]:
+                        bad(k, f"instance {j + 1} dumps {str(d)[:200]}, specification {obs['dumps'][j]}")
+                        stop = True
+                        break
+                if bool(o) != obs["bool"][j]:
+                    bad(k, f"bool(instance {j + 1}) is {bool(o)}, specification {obs['bool'][j]} for {str(got[j])[:200]}")
+                    stop = True
+                    break
+                for j2, o2 in enumerate(live):
+                    eq = bool(o == o2)
+                    if eq != obs["eq"][j][j2]:
+                        bad(k, f"instance {j + 1} == instance {j2 + 1} is {eq}, specification {obs['eq'][j][j2]}")
+                        stop = True
+                        break
+                    if eq:
+                        try:
+                            if hash(o) != hash(o2):
+                                bad(k, f"instances {j + 1} and {j2 + 1} are equal but hash differently")
+                                stop = True
+                                break
+                        except TypeError:
+                            pass
+                if stop:
+                    break
+            if stop:
+                break
+    rep.extra["tlc_behaviours_replayed"] = len(behaviours)
+    rep.extra["tlc_behaviour_steps_replayed"] = nsteps
+    rep.extra["tlc_behaviour_actions"] = acts
+    rep.traces += len(behaviours)
+    rep.evaluations += nsteps
